@@ -259,6 +259,25 @@ CLAIMED['C08'] = dict(
        'are trusted framing facts.',
   technique='class-rooted exception-escape analysis + loop-cycle progress analysis on the CFG (ast)')
 NA_REASON = {}
+# clauses added in round 5 (appended to the text of the level claimed / the technique of each check)
+EXTRA = {
+ 'C01': ('Round 5: the Type 1 / 2 memory image classes folded as objects (init, byte and slice stores across unit boundaries, flush) against a modelled tag '
+         'that refuses what the real command refuses; the Type 1 / 2 TLV writers folded over layouts with reserved bytes in, up to and across the end of the '
+         'data area; Type 4 capacity bounded by the offset READ / UPDATE BINARY as built can carry, reader folded with content; Type 3 commands within the frame budget.',
+         'folded image / TLV writer / Type 4 reader models'),
+ 'C02': ('Round 5: memory image flush folded (what was stored reaches the tag); the folded Type 3 writer commits Ln only after every block was written (block numbers above 255 included).', 'folded image and Type 3 writer'),
+ 'C03': ('Round 5: TLV writers folded over layouts (only the length field and free bytes of the data area change, terminator included); control TLV ranges cut only by an address-space constant; image flush folded.', 'folded TLV writer / image models'),
+ 'C04': ('Round 5: ContactlessFrontend.exchange hands a frame to the driver once on every path; the Initiator answers a timeout with ATN, never with NACK.', 'CFG reachability between driver call sites'),
+ 'C08': ('Round 5: Type 4 capacity / reader / offsets against the address limit folded from READ BINARY; over-long READ BINARY answers; Type 1 / 2 length guard folded for empty messages and negative capacities; no uncounted call cycle in the tag cone (class-rooted call graph, canary).', 'call-cycle search over the class-rooted call graph + folded reader'),
+ 'C09': ('Round 5: notify_all is passed on every path through close() (CFG must-pass); the NFC-DEP release loops that terminate() runs through are bounded (C04-R5 obligations as C09-R8).', 'CFG must-pass-through'),
+ 'C12': ('Round 5: driver error classification (C13-R2) and the single driver hand-over of the frontend are obligations of this check too.', 'shared mapping / hand-over obligations'),
+ 'C14': ('Round 5: for chipset classes that override write_frame() nothing else in the callee closure of command() writes to the transport (frame envelope).', 'callee closure who-may-write rule'),
+ 'C16': ('Round 5: no function of nfc.clf changes an argument in place (a repeated command is sent as it was; unnormalised source, canary); no write command reachable from the handler of its own try in nfc.tag; Type 4 dump bounded by the address limit.', 'parameter-mutation rule + CFG reachability from handlers'),
+ 'C17': ('Round 5: a bind inserts the socket only into the access point it has just created (dominance).', 'CFG dominance'),
+ 'C18': ('Round 5: access point shutdown order (C09-R7) and the bounded NFC-DEP release (C04-R5) are obligations of this check (C18-R6).', 'shared ordering / loop-bound obligations'),
+ 'C19': ('Round 5: the idle delay of the run loops derives from the local LTO or a constant, never from the peer LTO; the service discovery MIU budget (C10-R1) is an obligation of this check (C19-R5).', 'provenance through single-assignment locals'),
+ 'C20': ('Round 5: protect() and authenticate() hand the password to their delegates unchanged.', 'parameter passthrough rule'),
+}
 def main():
     checks = []
     for pid in ALL:
@@ -271,9 +290,9 @@ def main():
                 'evidence_file': 'evidence/%s.json' % pid,
                 'replay_cmd_template': './check.py %s --replay {path}' % pid,
                 'engine': 'nfcsa',
-                'level_claimed': {'category': c['category'], 'text': c['text'], 'design_ref': c['design_ref']},
+                'level_claimed': {'category': c['category'], 'text': c['text'] + ((' ' + EXTRA[pid][0]) if pid in EXTRA else ''), 'design_ref': c['design_ref']},
                 'level_note': c['note'],
-                'technique': c['technique'],
+                'technique': c['technique'] + (('; ' + EXTRA[pid][1]) if pid in EXTRA else ''),
             })
     na = [{'property_id': p, 'reason': NA_REASON.get(p, 'check not built yet in this round (static rules are designed in DESIGN.md section 3); not claimed until the rule runs clean')}
           for p in ALL if p not in CLAIMED]
